@@ -448,8 +448,26 @@ def components(module_tree):
     return out
 
 
-def module_of(a2l_tree):
-    return a2l_tree["project"]["module"][0]
+def module_of(a2l_tree, k=0):
+    return a2l_tree["project"]["module"][k]
+
+
+def render2(g0, g1, first="m"):
+    """one file with two MODULEs (m, m2); name spaces are per module, so both may use the same names"""
+    def body(g):
+        ls = render(g).split("\n")
+        b = next(i for i, l in enumerate(ls) if l.startswith("  /begin MODULE"))
+        e = next(i for i, l in enumerate(ls) if l.startswith("  /end MODULE"))
+        return ls, b, e
+    l0, b0, e0 = body(g0)
+    l1, b1, e1 = body(g1)
+    second = ['  /begin MODULE m2 ""'] + l1[b1 + 1:e1 + 1]
+    l0[b0] = f'  /begin MODULE {first} ""'
+    return "\n".join(l0[:e0 + 1] + second + l0[e0 + 1:])
+
+
+def module_index(a2l_tree, name):
+    return next(k for k, m in enumerate(a2l_tree["project"]["module"]) if _s(m.get("name")) == name)
 
 
 def flat(g):
